@@ -127,6 +127,8 @@ func runBatch(b batch, scale int) *rp.Fail {
 		switch c.Behaviour {
 		case "reply":
 			return []farm.Action{{Delay: d, Data: reply(req)}}
+		case "empty": // the controller's only answer is a datagram of length zero (then silence): no acceptable reply has arrived
+			return []farm.Action{{Delay: d, Data: []byte{}}}
 		case "stream": // replies (for discovery: well-formed get-device replies) arrive back to back from just before the
 			// deadline until just after it - the collector must stop cleanly in the middle of the stream
 			msg := reply(req)
@@ -440,12 +442,12 @@ func genCall(t *rapid.T, group bool) callSpec {
 	var bs []string
 	switch c.Path {
 	case 0:
-		bs = []string{"reply", "reply", "reply", "silence", "flood", "flood+reply", "stream"}
+		bs = []string{"reply", "reply", "reply", "silence", "flood", "flood+reply", "stream", "empty"}
 		if c.Op == "GetDevices" {
 			bs = []string{"reply", "silence", "flood", "stream", "stream"}
 		}
 	case 1:
-		bs = []string{"reply", "reply", "reply", "silence", "refused", "flood"}
+		bs = []string{"reply", "reply", "reply", "silence", "refused", "flood", "empty"}
 	default:
 		bs = []string{"reply", "reply", "reply", "stall", "reset", "refused", "blackhole", "close", "half", "trickle"}
 	}
